@@ -3,7 +3,9 @@
 For every DOM d of the domain (abstract sheets of bounded/gen.py in several spellings + hand-written sheets with @variables, unknown at-rules holding bare
 '-' '#' '@', calc(), !important, :not(), namespaces, duplicate / invalid / empty declarations + the token-adjacency family `adjacency_sources`: every ordered pair of
 31 token classes (+ a block) as neighbours in an unknown at-rule, 6 compounds x 4 combinators x 11 compounds in selectors, 23 media lists on @media / nested @media /
-@import, functions next to and inside each other in values + the number grid `number_sources`: every number spelling sign x integer part x fraction x unit around the
+@import, functions next to and inside each other in values + the URL-character family `urlchar_sources`: every character class that decides between url(x) and url("x")
+(CSS white space literal and escaped, parentheses, ; , quotes, backslash, control characters, harmless ones) at the start / middle / end of an @import href (string and url() form)
+and of url() values + the number grid `number_sources`: every number spelling sign x integer part x fraction x unit around the
 thresholds -1, 0, 1 as list component, function argument and calc() operand) and every preference assignment P of the tier
 (every preference alone with each non-default value, all pairs, the minified preset, the minified preset with each one of its preferences put back to the default,
 a pairwise covering array over the full value domains, seeded random full assignments):
@@ -959,6 +961,44 @@ def number_sources(tier):
     return out
 
 
+# URL characters: whether a URL is written bare - url(x) - or quoted - url("x") - is decided by the CHARACTERS of the URL, and importHrefFormat moves an href between the string
+# form (where every character but the quote is harmless) and the url() form (where white space, parentheses, quotes, backslash, ... end or break the token). So the domain is
+# every character class that matters for that decision, at the start / in the middle / at the end of the URL, in every place a URL is written: @import href given as string
+# (both quotes) and as url() (quoted and bare), url() as property value and in @font-face. Characters that cannot stand literally in the source are written as escapes.
+URL_CHARS = [
+    # (class, spelling inside a double-quoted string, spelling inside a bare url(), the character)
+    ('space', ' ', '\\20 ', ' '), ('space-escaped', '\\20 ', '\\20 ', ' '), ('tab', '\t', '\\9 ', '\t'), ('tab-escaped', '\\9 ', '\\9 ', '\t'),
+    ('line-feed', '\\a ', '\\a ', '\n'), ('carriage-return', '\\d ', '\\d ', '\r'), ('form-feed', '\\c ', '\\c ', '\f'),
+    ('lparen', '(', '\\(', '('), ('rparen', ')', '\\)', ')'), ('semicolon', ';', '\\;', ';'), ('comma', ',', '\\,', ','), ('apostrophe', "'", "\\'", "'"),
+    ('quote', '\\"', '\\"', '"'), ('backslash', '\\\\', '\\\\', '\\'), ('brace', '{', '{', '{'), ('rbrace', '}', '}', '}'),
+    # characters around the decision that need no quotes, and white space that is not CSS white space
+    ('plain', '-', '-', '-'), ('hash', '#', '#', '#'), ('query', '?', '?', '?'), ('star', '*', '*', '*'), ('slash-star', '/*', '/*', '/*'), ('percent', '%20', '%20', '%20'),
+    ('nbsp', '\xa0', '\xa0', '\xa0'), ('em-space', ' ', ' ', ' '), ('vertical-tab', '\\b ', '\\b ', '\x0b'),
+    # control characters that are not white space (not URL characters of the URI token either)
+    ('control', '\\1 ', '\\1 ', '\x01'), ('delete', '\\7f ', '\\7f ', '\x7f'),
+]
+URL_POSITIONS = [('middle', 'a%sb.css'), ('start', '%sb.css'), ('end', 'a%s')]
+
+
+def urlchar_sources(tier):
+    out = []
+    info = {'core': True, 'family': 'urlchars'}
+    for cls, instr, inuri, ch in URL_CHARS:
+        for pos, pat in URL_POSITIONS:
+            tag = '%s@%s' % (cls, pos)
+            s, u = pat % instr, pat % inuri
+            s1 = s.replace('\\"', '"').replace("'", "\\'") if "'" in s or '\\"' in s else s     # the same string content in apostrophes
+            out.append(('urlchars/import-string:' + tag, '@import "%s" print;' % s, info))
+            out.append(('urlchars/import-url-quoted:' + tag, '@import url("%s");' % s, info))
+            out.append(('urlchars/value-url-quoted:' + tag, 'a { background: url("%s") no-repeat; x: f(url("%s"), 1) }' % (s, s), info))
+            if pos == 'middle' or tier == 'thorough':
+                out.append(('urlchars/import-string-apos:' + tag, "@import '%s' \"nm\";" % s1, info))
+                out.append(('urlchars/import-url-bare:' + tag, '@import url(%s) print;' % u, info))
+                out.append(('urlchars/value-url-bare:' + tag, 'a { background: url(%s) }' % u, info))
+                out.append(('urlchars/fontface-url:' + tag, '@font-face { font-family: x; src: url("%s") format("woff"), url(%s) }' % (s, u), info))
+    return out
+
+
 def dom_sources(tier, seed):
     """[(label, source text, info)] - deterministic.
     core (info['core'], both tiers): of the QUICK enumeration of the generator the rule-level sheets (every rule variant, every ordered pair of rule kinds) in 3 spellings,
@@ -987,6 +1027,7 @@ def dom_sources(tier, seed):
         out.append(('extra/' + label, text, {'core': True}))
     out += adjacency_sources(tier)
     out += number_sources(tier)
+    out += urlchar_sources(tier)
     if tier == 'thorough':
         k = 0
         for label, a in gen.enumerate_sheets('thorough', seed):
@@ -1192,6 +1233,8 @@ K_COMB = 'C06-combinator-spacer-glues-plus'
 K_EMPTY = 'C06-keepemptyrules-page-fontface'
 K_VALIDVAR = 'C06-validonly-unresolved-variable'
 K_NSNEST = 'C06-used-namespace-nested-media'
+K_URLCTRL = 'C06-url-control-character-unquoted'
+_BARE_URL_CONTROL = re.compile(r'''url\([^)"']*\\x(?:0[1-8e-f]|1[0-9a-f]|7f)''')   # in the repr of the output: a bare url( ... with a C0 control character that is not white space, or DEL
 
 
 def _nested_media_uses_prefix(src):
@@ -1220,6 +1263,7 @@ KNOWN = [
     (K_VALIDVAR, lambda label, src, cl, P, d: cl == CL_EFFECT and P['validOnly'] and not P['resolveVariables'] and d.startswith('[model:') and 'validvar' in d.split(']')[0]),
     (K_NSNEST, lambda label, src, cl, P, d: cl == CL_EFFECT and P['keepUsedNamespaceRulesOnly'] and ((d.startswith('[model:') and 'nsnested' in d.split(']')[0])
                                                                                                   or (_nested_media_uses_prefix(src) and "('namespace'," in d and '@namespace' not in d.split(' | ')[-1]))),
+    (K_URLCTRL, lambda label, src, cl, P, d: cl in (CL_EFFECT, CL_WELL) and P['importHrefFormat'] == 'uri' and bool(_BARE_URL_CONTROL.search(d.split(' | ')[-1]))),
 ]
 
 
@@ -1242,10 +1286,13 @@ def _worker(args):
     assigns_adj = [a for a in assigns if a[0] != 'pair' or all(k in LAYOUT for k in a[1])]
     # the number grid is about how a number is written: of the pairs it gets those with omitLeadingZero
     assigns_num = [a for a in assigns if a[0] != 'pair' or 'omitLeadingZero' in a[1]]
+    # the URL-character sheets are about how a URL is written: of the pairs they get those with importHrefFormat
+    assigns_url = [a for a in assigns if a[0] != 'pair' or 'importHrefFormat' in a[1]]
+    by_family = {'adjacency': assigns_adj, 'numbers': assigns_num, 'urlchars': assigns_url}
     res = {'n': 0, 'doms': 0, 'skipped': {}, 'fails': [], 'known': {}, 'kinds': set(), 'nfail': {}}
     try:
         for label, src, info in srcs[lo:hi]:
-            r = evaluate(cssutils, label, src, assigns_adj if info.get('family') == 'adjacency' else assigns_num if info.get('family') == 'numbers' else assigns if info.get('core') else assigns_rest)
+            r = evaluate(cssutils, label, src, by_family[info['family']] if info.get('family') in by_family else assigns if info.get('core') else assigns_rest)
             res['n'] += r['n']
             if r['skipped']:
                 key_ = r['skipped'].split(':')[0]
@@ -1321,13 +1368,17 @@ def matrix(ctx):
                                  '(unknown at-rule: ordered pairs of %d token classes (+ block) separated by a blank%s; selectors: 6 compounds x 4 combinators x 11 compounds; 23 media lists x 4 holders; '
                                  '7 values of neighbouring / nested functions); %d number-grid sheets (every spelling sign %s x integer part %s x fraction %s x unit %s - %d spellings - as component of a '
                                  'value list, as function argument, px also as calc() operand%s; under every assignment but the pairs without omitLeadingZero); every single-component value sheet of the '
-                                 'generator (%d) is a core source' % (
+                                 'generator (%d) is a core source; %d URL-character sheets (%d character classes - each CSS white-space character literal and as escape, ( ) ; , quotes, backslash, braces, '
+                                 'harmless punctuation, non-CSS white space, control characters - at %s of the URL, as @import href in string form (both quotes) and url() form (quoted, bare), as url() '
+                                 'value (also inside a function) and in @font-face src%s; under every assignment but the pairs without importHrefFormat)' % (
                             len(assigns), ', '.join('%d %s' % (v, k) for k, v in sorted(by.items())), sum(1 for x in srcs if x[2].get('core')), n, doms, json.dumps(skipped, sort_keys=True),
                             gen.ENUMERATION[ctx.tier][:160], len(EXTRA), sum(1 for x in srcs if x[2].get('family') == 'adjacency'), len(TOKEN_POOL),
                             ', also inside the block and inside @media' if ctx.tier == 'thorough' else '',
                             sum(1 for x in srcs if x[2].get('family') == 'numbers'), NUM_SIGNS, NUM_INTS, ['none'] + NUM_FRACS[1:], NUM_UNITS,
                             sum(len(number_spellings(s_, i_, u_)) for s_ in NUM_SIGNS for i_ in NUM_INTS for u_ in NUM_UNITS),
-                            ', each spelling alone in a valid declaration' if ctx.tier == 'thorough' else '', sum(1 for x in srcs if x[0].startswith('value/single'))),
+                            ', each spelling alone in a valid declaration' if ctx.tier == 'thorough' else '', sum(1 for x in srcs if x[0].startswith('value/single')),
+                            sum(1 for x in srcs if x[2].get('family') == 'urlchars'), len(URL_CHARS), ' / '.join(p_ for p_, _ in URL_POSITIONS),
+                            '' if ctx.tier == 'thorough' else ' (apostrophe, bare and @font-face forms for the middle position only)'),
                         'samples': [{'assignment': {'keepComments': False, 'omitLastSemicolon': False}, 'source': 'a { color: red; /*last*/ }'}],
                         'exhaustive': False, 'wall_s': round(time.time() - t0, 1), 'known_class_evaluations': {k: v['count'] for k, v in sorted(known.items())}, 'failures': nfail})
 
@@ -1379,6 +1430,7 @@ WITNESSES = [
     (K_EMPTY, '@page{} @font-face{} a{}', {'keepEmptyRules': True}),
     (K_VALIDVAR, '@variables{c:red} a{color:var(c)}', {'validOnly': True, 'resolveVariables': False}),
     (K_NSNEST, '@namespace "d"; @media screen{@media print{a{top:0}}}', {'keepUsedNamespaceRulesOnly': True}),
+    (K_URLCTRL, '@import "a\\1 b.css";', {'importHrefFormat': 'uri'}),
 ]
 
 
